@@ -6,8 +6,11 @@ from .common import e4
 
 def run(ctx: Ctx) -> None:
     t9_derived.run_derived(ctx)
+    t9_derived.run_chains_resize(ctx)
+    t9_derived.run_cube_grid(ctx)
     ctx.floor("T9.crop-family", 150)
-    ctx.floor("T9.resize-family", 100)
+    ctx.floor("T9.resize-family", 120)
+    ctx.floor("T9.cube-grid", 30)
 
 
 def mutants(prog):
@@ -33,6 +36,9 @@ def mutants(prog):
         ("align flag lost in crop", G, "Grid.crop", "align_corners=self.align_corners(), ", "", "op=crop"),
         ("center_crop: offset from the unclamped request", G, "Grid.center_crop", "size = [min(m, n) for m, n in zip(self.size(), size.tolist())]\n    origin = [(m - n) // 2 for m, n in zip(self.size(), size)]", "origin = [(m - n) // 2 for m, n in zip(self.size(), size.tolist())]\n    size = [min(m, n) for m, n in zip(self.size(), size.tolist())]", "op=center_crop"),
         ("center_pad: offset from the unclamped request", G, "Grid.center_pad", "size = [max(m, n) for m, n in zip(self.size(), size.tolist())]\n    origin = [-((n - m) // 2) for m, n in zip(self.size(), size)]", "origin = [-((n - m) // 2) for m, n in zip(self.size(), size.tolist())]\n    size = [max(m, n) for m, n in zip(self.size(), size.tolist())]", "op=center_pad"),
+        ("resample: internal float size instead of the extent", G, "Grid.resample", "size = self.extent().div(spacing)", "size = self._size.mul(self.spacing()).div(spacing)", "after downsample"),
+        ("Cube.grid: cells counted as for corner alignment", "deepali.core.cube", "Cube.grid", "if align_corners:\n        ncells = ncells.sub_(1)", "ncells = ncells.sub_(1)", "T9.cube-grid"),
+        ("Cube.grid: spacing form forgets the extra sample", "deepali.core.cube", "Cube.grid", "if align_corners:\n            size = torch.Size((n + 1 for n in size))", "pass", "T9.cube-grid"),
     ]
     for name, mod, fn, old, new, expect in specs:
         ov = source_sub(prog, mod, fn, old, new)
